@@ -213,6 +213,19 @@ CLAIMED = {
             TB + "The ladder transcriptions are by hand (per-step C line tables in docs/C15-proofs.md); one C allocation does not map one-to-one to a "
             "ladder step (cJSON nodes). Open known finding F60 (unchecked cJSON_AddItemToObject: a failing key copy leaks the item) is printed on every run.",
             "Lean 4 proof of unwinding ladders + single-fault enumeration on the compiled daemon (stated as partial)", "DESIGN.md §6 C15, docs/C15-proofs.md"),
+    "C13": ("proof",
+            "9 Lean theorems over a lifecycle model of one HTTP connection (descriptor, buffered socket, http_connection and its list membership, "
+            "websocket_peer and its registration, routing table, current error handler; every acquiring/releasing/linking C statement is an action, "
+            "faults recorded on use of a released object or double release): non_upgrade_leaves_nothing, no_orphan_peer, no_fault_ever, "
+            "error_status_or_close, term_releases_all, upgrade_keeps_exactly_one_peer — for all pre-existing peers/connections and all event "
+            "sequences — plus decide-checked counterexamples for the three pre-repair versions (F17, F54, F55). Tie: the whole daemon on the "
+            "simulated kernel; per connection the event sequence is derived from the log of the real http-parser calls, handler lookups and peer "
+            "registrations and run through the model; statuses, order of observable statements, peers / descriptors / heap at every snapshot are "
+            "compared; the property is also judged directly (400/404/500 or close, before/after snapshots equal, everything zero after SIGTERM). "
+            "Families: every truncation point x EOF/RST, every corruption position, over-long lines, header variants, segmentations, allocation and "
+            "epoll_ctl failures on the accept path.",
+            TB + "http-parser's tokenisation is an observed oracle; the WebSocket phase after 101 is abstracted to one 'wsEnd' event (C05/C12 cover it).",
+            "Lean 4 proof over executable lifecycle model + correspondence with the compiled daemon", "DESIGN.md §6 C13, docs/C13.md"),
 }
 
 NOT_YET = "machinery under construction in this round; not yet claimed"
